@@ -159,7 +159,10 @@ impl DerefMut for Dict {
 #[allow(clippy::non_canonical_partial_ord_impl)]
 impl PartialOrd for Dict {
     fn partial_cmp(&self, other: &Self) -> Option<std::cmp::Ordering> {
-        self.value.partial_cmp(&other.value)
+        // Has to agree with the total order below whenever it gives an answer
+        self.value
+            .partial_cmp(&other.value)
+            .map(|_| self.cmp(other))
     }
 }
 
